@@ -92,6 +92,14 @@ def bdd_machine(ctx, prop):
     if prop == "C16":
         model_check(ctx, "MC_BddMachine", "MC_BddMachine_nokey.cfg", "regression: a cache that answers from the cell without comparing the key is not transparent",
                     workers=2, expect_violation=True)
+    if prop == "C05":
+        model_check(ctx, "MC_BddMachine", "MC_BddMachine_cnf2.cfg", "BddMachine: compile_cnf as coded (insertion sort on the last literal's level, or-fold, balanced collapse) on the "
+                    "machine's store and persistent cache-everything table: every history of compilations of the 111 CNFs of <= 2 clauses (units, binary, complementary / "
+                    "repeated variables, an empty clause, the empty formula) over 2 variables, interleaved with conditioning", workers=6, timeout=900)
+        model_check(ctx, "MC_BddMachine", "MC_BddMachine_cnf2l.cfg", "BddMachine: the same compilations with a ONE-cell apply cache", workers=6, timeout=900)
+        if not ctx.quick:
+            model_check(ctx, "MC_BddMachine", "MC_BddMachine_cnf3.cfg", "BddMachine: compilations of all 1 000 three-clause CNFs over 2 variables, one-cell cache", workers=12, timeout=3000, xmx="8g")
+        return
     if not ctx.quick:
         for cfg, what in (("2_lru1", "all operations, one-cell cache, order 1,0, until the store is complete (7 nodes)"),
                           ("2_lru2", "all operations, two-cell cache"),
@@ -272,7 +280,14 @@ def C04(ctx):
 def C05(ctx):
     ctx.assumptions += ["CNF / expression / plan semantics = EvalCnf / EvalExpr of spec/BoolFn.tla evaluated by TLC",
                         "plans derived from DTree::from_cnf are logged as trees: TLC evaluates the plan itself"]
+    # design level: compile_cnf as coded on the stateful builder machine (store + persistent apply cache), every history of compilations
+    bdd_machine(ctx, "C05")
     cnf_vectors(ctx, ["bdd", "sdd", "sdd-dtree"])
+    # binding of that model: consecutive compilations in one real cache-everything builder; right models (L1); same diagram after the
+    # same number of recursive calls as the machine makes from its own store and cache (MODEL-DRIFT)
+    record_and_validate(ctx, [("machine_c05_%d" % i, ["record", "machine", "--mode", "c05", "--seed", ctx.seed * 1000 + 750 + i,
+                                                      "--segments", 5 if ctx.quick else 10, "--len", 30, "--nmax", 3 + (i % 2)])
+                              for i in range(3 if ctx.quick else 12 * TH)], "TraceMachine", "TraceMachine.cfg")
     _bdd_family(ctx, "c05", "TraceBdd_C05.cfg")
     _sdd_family(ctx, "c05", "TraceSdd_C05.cfg", nq=4, nt=24)
 
